@@ -102,6 +102,13 @@ def run(ctx):
             recv = (t.get("arg_tys") or [""])[0]
             return not re.search(r"(Vec<u8>|Stdout|Stderr|Cursor<|String|BufWriter<std::io::Std)", recv)
         flushes = {bid for bid, t in fn.calls() if (t.get("callee") or "") == "std::io::Write::flush" and _transport(t)}
+        # `write_all(..).and_then(|_| stream.flush())`: the flush sits in a closure handed to a combinator of the write's result
+        for bid, t in fn.calls():
+            for cn in t.get("fn_items", []):
+                cf = F.fns.get(cn)
+                if cf is not None and cf.kind == "Closure" and any((ct.get("callee") or "") == "std::io::Write::flush" for _, ct in ctx.inl(cf).calls()):
+                    if (callee_name(t) or "").endswith(("::and_then", "::map", "::and")):
+                        flushes.add(bid)
         k = 0
         for bid, t in fn.calls():
             if (t.get("callee") or "") != "std::io::Write::write_all" or not _transport(t) or cfg.blocks[bid].get("cleanup"):
@@ -387,6 +394,9 @@ def _field_source(du, v, depth=0):
         fields = [p[2] for p in proj if isinstance(p, tuple) and p[0] == "f"]
         if fields:
             f = fields[-1]
+            if len(fields) >= 2 and fields[-2] == "content_range_list":
+                # `response.content_range_list[0].body` / the binding of a slice pattern `[single]`: the element's origin is the field before it
+                return (fields[-2], f, None)
             # the base must be an element obtained from `.content_range_list`
             base_v = du.val_place((l, ()))
             origin = _origin_field(du, base_v)
@@ -455,14 +465,28 @@ def _len_condition(cfg, du, block):
         if st["k"] != "switch":
             continue
         v = strip_casts(du.val_operand(st["discr"]))
+        if v[0] == "call" and (v[1] or "").endswith("::len") and st.get("discr_ty") != "bool":
+            # `match list.len() { 0 => .., 1 => .., _ => .. }`: the edge of value k says len == k, the default edge len != every listed k
+            for val, tb in st["targets"]:
+                if cfg.edge_dominates((sb, tb), block) and tb != st["otherwise"]:
+                    out.append(("Eq", val))
+            if cfg.edge_dominates((sb, st["otherwise"]), block) and all(tb != st["otherwise"] for _, tb in st["targets"]):
+                for val, _tb in st["targets"]:
+                    out.append(("Ne", val))
+            continue
         if v[0] != "binop" or v[1] not in ("Eq", "Gt", "Ge", "Lt", "Le", "Ne"):
             continue
         a, b = strip_casts(v[2]), strip_casts(v[3])
-        if a[0] == "call" and (a[1] or "").endswith("::len") and const_int(b) is not None:
+        if ((a[0] == "call" and (a[1] or "").endswith("::len")) or (a[0] == "unop" and a[1] == "PtrMetadata")) and const_int(b) is not None:
             for val, tb in st["targets"]:
                 edge_true = (sb, st["otherwise"]) if val == 0 else (sb, tb)
-                if cfg.edge_dominates(edge_true, block) and edge_true[1] != (tb if val == 0 else st["otherwise"]):
+                edge_false = (sb, tb) if val == 0 else (sb, st["otherwise"])
+                if edge_true[1] == edge_false[1]:
+                    continue
+                if cfg.edge_dominates(edge_true, block):
                     out.append((v[1], const_int(b)))
+                elif cfg.edge_dominates(edge_false, block):
+                    out.append(({"Eq": "Ne", "Ne": "Eq", "Gt": "Le", "Le": "Gt", "Lt": "Ge", "Ge": "Lt"}[v[1]], const_int(b)))
     return sorted(set(out)) or None
 
 
@@ -526,7 +550,29 @@ def emission_sequences(ctx, fn):
     per format!(..) in the function and in the closures it builds (`headers.iter().map(|h| format!("{}{}{}{}", h.name, SEP, h.value, CRLF))`)"""
     from ..fmtargs import format_parts, FORMAT_FNS
     out = []
-    bodies = [fn] + [ctx.F.fns[e.dst] for e in ctx.G.out.get(fn.def_, []) if e.dst in ctx.F.fns and ctx.F.fns[e.dst].kind == "Closure"]
+    from ..inline import IN_INFO
+    owners = [fn.def_] + list(IN_INFO.get(id(fn), {}).get("callees", []))
+    bodies = [fn]
+    for o_ in dict.fromkeys(owners):
+        for e in ctx.G.out.get(o_, []):
+            if e.dst in ctx.F.fns and ctx.F.fns[e.dst].kind == "Closure":
+                cb = ctx.inl(ctx.F.fns[e.dst])        # the line may be put together by a private helper called from the closure
+                if all(cb is not b_ for b_ in bodies):
+                    bodies.append(cb)
+
+    def array_elements(du, v, depth=0):
+        """the element values of `[a, b, c]` behind the reference / unsizing cast handed to concat / join"""
+        if depth > 6:
+            return None
+        if v[0] == "cast":
+            return array_elements(du, v[2], depth + 1)
+        if v[0] == "aggregate" and v[1] == "array":
+            return list(v[3])
+        if v[0] in ("ref", "place"):
+            vv = du.val_place((v[1][0], tuple(e for e in v[1][1] if e != "*")))
+            if vv != v and vv[0] != "place":
+                return array_elements(du, vv, depth + 1)
+        return None
     for body in bodies:
         du = du_of(body)
         cfg = cfg_of(body)
@@ -541,6 +587,17 @@ def emission_sequences(ctx, fn):
             c = callee_name(t)
             if c in ("std::string::String::push_str", "std::vec::Vec::<T, A>::extend_from_slice") and len(t["args"]) == 2:
                 seq.append(desc(du.val_operand(t["args"][1])))
+            elif c and re.search(r"slice::<impl \[\w+\]>::(concat|join)$", c) and t["args"]:
+                # `[name, SEP, value, CRLF].concat()`: one emission made of the array's elements in order
+                els = array_elements(du, du.val_operand(t["args"][0]))
+                if els is not None:
+                    sep = desc(du.val_operand(t["args"][1])) if c.endswith("::join") and len(t["args"]) > 1 else None
+                    fs = []
+                    for i_, e_ in enumerate(els):
+                        if i_ and sep not in (None, "const:"):
+                            fs.append(sep)
+                        fs.append(desc(e_))
+                    out.append(fs)
             elif c in FORMAT_FNS:
                 fp = format_parts(du, du.val_call(t, 0, bid))
                 if fp is not None:
@@ -590,6 +647,9 @@ def _method_eq(v, depth=0):
         consts = [a[1] for a in v[2] if a[0] == "const" and isinstance(a[1], str)]
         fields = []
         for a in v[2]:
+            hops = 0
+            while a[0] == "call" and a[1] and a[1].endswith(("::as_str", "::deref", "::as_ref", "::borrow", "::clone", "::to_string", "::as_bytes")) and a[2] and hops < 4:
+                a, hops = a[2][0], hops + 1
             if a[0] in ("ref", "place"):
                 fields += [p[2] for p in a[1][1] if isinstance(p, tuple) and p[0] == "f"]
         if consts and "method" in fields:
